@@ -123,7 +123,12 @@ TAMPER_OUT = ["out_spk_attacker_p2sh", "out_spk_attacker_p2wsh", "out_spk_p2pkh"
               "out_spk_p2tr", "out_script_foreign", "out_script_and_spk_foreign", "out_foreign_fingerprint",
               "out_wrong_path", "out_keys_from_one_cosigner", "out_changed_quorum", "second_change_output",
               "out_noncanonical_script_all_keys", "out_noncanonical_script_extra_ops",
-              "spend_gets_change_metadata", "out_amount_changed"]
+              "spend_gets_change_metadata", "out_amount_changed",
+              # not an attack: a payment to a script without an address form (or of an unusual kind); the
+              # summary may refuse it, but if it is given its sums must still add up
+              "spend_script_kind", "spend_script_kind"]
+SPEND_KINDS = ["op_return_zero", "op_return_value", "op_return_value", "p2sh", "p2wpkh", "p2wsh", "p2tr",
+               "p2pk", "bare_multisig", "empty", "op_true", "witness_v2"]
 TAMPER_IN = ["in_foreign_script", "in_wrong_path", "in_foreign_fingerprint", "in_key_swapped",
              "in_prev_tx_amount", "in_prev_tx_other", "in_changed_quorum_script"]
 
@@ -434,6 +439,22 @@ def check_tamper(case, ctx):
     elif t == "out_amount_changed":
         tx["outs"][w % len(tx["outs"])]["amount"] += d
         psbtmap.set_tx(pm, tx)
+    elif t == "spend_script_kind":
+        spends = [i for i, o in enumerate(info["outs"]) if o["kind"] == "spend"]
+        si = spends[w % len(spends)]
+        sk = SPEND_KINDS[d % len(SPEND_KINDS)]
+        ctx.label("spend_kind:" + sk)
+        h20, h32 = bip32.hash160(att_secs[0]), sha256(att_secs[0])
+        new = {"op_return_zero": b"\x6a\x04" + d.to_bytes(4, "big"),
+               "op_return_value": b"\x6a\x04" + d.to_bytes(4, "big"),
+               "p2sh": b"\xa9\x14" + h20 + b"\x87", "p2wpkh": b"\x00\x14" + h20, "p2wsh": b"\x00\x20" + h32,
+               "p2tr": b"\x51\x20" + att_secs[0][1:], "p2pk": b"\x21" + att_secs[0] + b"\xac",
+               "bare_multisig": Model.multisig(1, att_secs[:1]), "empty": b"", "op_true": b"\x51",
+               "witness_v2": b"\x52\x20" + h32}[sk]
+        tx["outs"][si]["spk"] = new
+        if sk == "op_return_zero":
+            tx["outs"][si]["amount"] = 0
+        psbtmap.set_tx(pm, tx)
     elif t == "in_foreign_script":
         set_kv(pm["inputs"][w % len(pm["inputs"])], IN_SCRIPT_KEY, att_script)
     elif t == "in_key_swapped":
@@ -468,8 +489,8 @@ def check_tamper(case, ctx):
     check_summary(desc, pm2, model, f"tamper/{t}")
     if t == "second_change_output":
         require(sum(1 for o in desc["outputs_desc"] if o["is_change"]) <= 1, "tamper/two_change_outputs_labelled")
-    if t == "out_amount_changed":
-        return  # an honest summary of the altered amounts is fine
+    if t in ("out_amount_changed", "spend_script_kind"):
+        return  # an honest summary of the altered amounts / of the unusual payment is fine
     if ci is not None and t not in ("second_change_output", "spend_gets_change_metadata"):
         # the tampered output must not be presented as change
         require(not desc["outputs_desc"][ci]["is_change"] or model.truth_is_change(pm2, ci, m),
@@ -483,7 +504,7 @@ SUBS = [
                   "duplicate_spend_address"],
         nontrivial_rule="wallet with n >= 2 or a change output"),
     Sub("tampering", check_tamper, strategy=lambda tier: tamper_cases(),
-        budget={"quick": 360, "thorough": 15000},
-        required=["tamper:" + t for t in TAMPER_OUT + TAMPER_IN] + ["rejected"],
+        budget={"quick": 420, "thorough": 15000},
+        required=["tamper:" + t for t in TAMPER_OUT + TAMPER_IN] + ["rejected", "spend_kind:op_return_value"],
         nontrivial_rule="every case"),
 ]
